@@ -63,13 +63,11 @@ class HistogramCollection(Container[Histogram1D], ObjectWithBinning):
         return len(self.histograms)
 
     def copy(self) -> "HistogramCollection":
-        # Every member keeps the binning object of its own copy (an adaptive one grows in place)
-        histograms = [h.copy() for h in self.histograms]
-        if not histograms:
-            return HistogramCollection(
-                binning=self.binning.copy(), title=self.title, name=self.name
-            )
-        return HistogramCollection(*histograms, title=self.title, name=self.name)
+        # The collection and every member keep binning objects of their own (an adaptive one
+        # grows in place; members may have grown since they were created)
+        new = HistogramCollection(binning=self.binning.copy(), title=self.title, name=self.name)
+        new.histograms.extend(h.copy() for h in self.histograms)
+        return new
 
     @property
     def binning(self) -> BinningBase:
